@@ -473,6 +473,13 @@ static var Thread_Val_Type(var self) {
 
 static void Thread_Mark(var self, var gc, void(*f)(var,void*)) {
   struct Thread* t = self;
+
+  /*
+  ** Only the thread itself may walk its thread local storage. The table
+  ** of another thread can be changing while we look at it.
+  */
+  if (self isnt Thread_Current()) { return; }
+
   mark(t->tls, gc, f);
 }
 
